@@ -21,7 +21,7 @@ func init() {
 		Rule: "case = multiset of (value, dyadic weight in (0,2^20]) with total weight W from 2^-10 upward (half of the cases W<1), reached by weighted adds or by reweighting down, on every store kind (collapsing ones wide enough not to fold) and mapping kind; q grid incl. 0, 1, cumulative-interval boundaries; " +
 			"oracle: the answer is within (alpha+64u) of some absorbed item whose cumulative-weight interval is within distance 1 of q*(W-1), lies within [GetMinValue, GetMaxValue], is >=0 if nothing negative was absorbed, <=0 if nothing positive, and 0 only if the zero bucket holds weight. " +
 			"Non-trivial = W<1 or >=1 non-integer weight; distinct = hash of (mapping, store, items).",
-		Cases:     core.Scale(12000, 400000),
+		Cases:     core.Scale(150000, 4000000),
 		Mandatory: []string{"oracle.weighted_quantile_checks", "total_weight.lt1", "total_weight.ge1", "reached_by.reweight", "reached_by.weighted_adds", "query.on_interval_boundary"},
 		Run:       runC11,
 	})
@@ -31,7 +31,7 @@ func init() {
 		Rule: "case = sketch in a reachable state (both variants, any store and mapping kind) receiving refused calls: Add/AddWithCount with NaN, +-Inf, +-MaxFloat64, +-nextafter(MaxIndexable,inf), negative weights (-1, -2^-20), quantiles q in {NaN, -2^-1074, nextafter(1,2), +-Inf, -1, 2} single and batch and on empty sketches, MergeWith of a sketch with another kind/alpha/offset, Reweight(0), Reweight(-w); " +
 			"oracle: documented sentinel error (either when two rules apply), full observation identical before/after; valid boundary inputs (+-MaxIndexable, its inner neighbours, -0, weight 0 and -0) accepted; constructors over finite parameters return an error or a usable object, never (nil,nil). " +
 			"Non-trivial = non-empty sketch state and >=10 refused calls; distinct = hash of state and calls.",
-		Cases:     core.Scale(8000, 250000),
+		Cases:     core.Scale(40000, 1000000),
 		Mandatory: []string{"oracle.refused_calls", "oracle.state_unchanged", "oracle.accepted_boundary", "oracle.constructor_checks", "refused.nan_quantile", "refused.zero_weight_invalid_value_exact", "refused.merge_mismatch", "constructor.tiny_accuracy"},
 		Run:       runC13,
 	})
@@ -455,7 +455,7 @@ func runC13(c *core.Ctx) {
 		default:
 			om, _ = gen.NewMapGamma(m.Kind, m.Gamma, m.Offset+[]float64{1, -1, 0.5, 1000}[r.Intn(4)])
 		}
-		if om == nil || om.M.Equals(m.M) {
+		if om == nil || gen.SameParams(om, m) {
 			continue
 		}
 		other := mon.NewSketch(exact, om.M, gen.RandPlainStore(r))
